@@ -4,6 +4,7 @@
   span_token.py / latex_token.py / contrib/github_wiki.py, producing the `Inline` tree.
 -/
 import Mistletoe.Model.Core
+import Mistletoe.Model.InlineScanX
 import Mistletoe.Model.Span
 import Mistletoe.Model.Unescape
 import Mistletoe.Model.Ast
@@ -113,8 +114,9 @@ def findOne (s : Str) (core : List CoreM) (codes : List CodeM) : STok → List F
   | .inlineCode => codes.map (fun m => { cls := .inlineCode, start := m.start, stop := m.stop, pstart := m.gs, pend := m.ge, payload := .code m })
   | .githubWiki => (wikiFindAux (s.length + 1) 0 s).map (fun w =>
       { cls := .githubWiki, start := w.m.start, stop := w.m.stop, pstart := w.m.gs, pend := w.m.ge, payload := .re w.m, g2 := (w.g2s, w.g2e) })
-  | .xwikiMacroStart => []      -- not modelled (XWiki renderer only)
-  | .xwikiMacroEnd => []
+  -- span_token.XWikiBlockMacroStart / XWikiBlockMacroEnd: `parse_group = 1`
+  | .xwikiMacroStart => (findIter InlineScanX.xwikiStartAt s).map (ofRe .xwikiMacroStart false)
+  | .xwikiMacroEnd => (findIter InlineScanX.xwikiEndAt s).map (ofRe .xwikiMacroEnd false)
 
 /-- `find_tokens`: all candidates, class by class in token-list order -/
 def findAll (s : Str) (types : List STok) (fn : Footnotes.Table) : Res (List Found) :=
@@ -159,6 +161,9 @@ def build (s : Str) (found : List Found) : Span.Out → Inline
         .lineBreak content (!(startsWith [' ', ' '] content || startsWith ['\\'] content))
       | .math, .re m => .math (slice s m.start m.stop)
       | .githubWiki, _ => .githubWiki (slice s f.g2.1 f.g2.2) (builds s found kids)
+      -- `SpanToken.__init__` with `parse_inner = False`: `self.content = match.group(1)`
+      | .xwikiMacroStart, .re m => .xwikiMacroStart (slice s m.gs m.ge)
+      | .xwikiMacroEnd, .re m => .xwikiMacroEnd (slice s m.gs m.ge)
       | .inlineCode, .code m => inlineCodeOf s m
       | .coreTokens, .core m =>
         (match m.kind with
